@@ -684,6 +684,135 @@ def extraction_vs_kernel(ctx, k=6):
     ctx.extra["extraction_vs_kernel_layouts"] = k
 
 
+def convert_vs_model(ctx):
+    """tie of Impl/RConvert.v to converted_types.convert: for every (physical type, converted / logical type) row of the table the
+    REAL convert() is called on a numpy array of boundary + random values; each element of its result (dtype and bit pattern; for
+    DECIMAL the float) must be what convert_model says.  The same call returns the model's reading of the value (denote) and the
+    specification's logical value: they must agree wherever the value is representable (instance of C03_convert_table)."""
+    import random
+    import numpy as np
+    C.use_shadow()
+    from fastparquet import parquet_thrift
+    from fastparquet.cencoding import ThriftObject
+    from fastparquet.converted_types import convert
+    rng = random.Random("C03-convert/%d" % ctx.seed)
+    pq = C.Pqref()
+    M32, M64 = (1 << 32) - 1, (1 << 64) - 1
+    UN = {0: "ms", 1: "us", 2: "ns"}
+
+    def ints(bits):
+        m = (1 << bits) - 1
+        base = [0, 1, 2, 127, 128, 255, 256, 32767, 32768, 65535, 65536, 106751, 106752, 2932896, (1 << 31) - 1, 1 << 31, m, m - 1,
+                (-128) & m, (-129) & m, (-32768) & m, (-32769) & m, (-106751) & m, (-106752) & m, (1 << (bits - 1)) - 1, 1 << (bits - 1),
+                (1 << (bits - 1)) + 1]
+        return [b & m for b in base] + [rng.getrandbits(bits) for _ in range(40)] + [rng.getrandbits(rng.choice([3, 9, 17, 33])) & m for _ in range(20)]
+
+    def bes(n):
+        out = [bytes(n), b"\xff" * n, b"\x80" + bytes(n - 1), b"\x7f" + b"\xff" * (n - 1), bytes(n - 1) + b"\x01", b"\xff" * (n - 1) + b"\xfe"]
+        return out + [bytes(rng.getrandbits(8) for _ in range(n)) for _ in range(20)]
+
+    rows = []   # (label, ptype, tlen, conv, lunit, scale, values)
+    for conv in (5, 6, 7, 11, 12, 13, 15, 16, 17, None):
+        rows.append(("INT32/%s" % conv, 1, 0, conv, None, 3, ints(32)))
+    for conv in (5, 8, 9, 10, 14, 18, None):
+        rows.append(("INT64/%s" % conv, 2, 0, conv, None, 4, ints(64)))
+    for lu in (0, 1, 2):
+        rows.append(("INT64/TIMESTAMP(%s)" % UN[lu], 2, 0, None, lu, 0, ints(64)))
+    for w in (1, 2, 3, 5, 8, 9, 16):
+        rows.append(("FLBA%d/DECIMAL" % w, 7, w, 5, None, 2, bes(w)))
+    rows.append(("BYTE_ARRAY/DECIMAL", 6, 0, 5, None, 2, [b for w in (1, 2, 4, 9, 17) for b in bes(w)[:8]]))
+    rows.append(("BYTE_ARRAY/UTF8", 6, 0, 0, None, 0, [x.encode("utf-8") for x in ["", "a", "\u00e9", "\u65e5\u672c", "x" * 40]]))
+    rows.append(("INT96", 3, 0, None, None, 0, [0 | (2440588 << 64), (86400 * 10**9 - 1) | (2440587 << 64), 1 | (2488070 << 64), 5 | (2415021 << 64)] +
+                 [rng.getrandbits(46) | (rng.randrange(2400000, 2500000) << 64) for _ in range(20)]))
+    nvals = ninst = 0
+    for label, ptype, tlen, conv, lu, scale, vals in rows:
+        kw = {"type": ptype, "converted_type": conv}
+        if tlen:
+            kw["type_length"] = tlen
+        if conv == 5:
+            kw["scale"] = scale
+            kw["precision"] = 9
+        if lu is not None:
+            kw["logicalType"] = ThriftObject.from_fields("LogicalType", TIMESTAMP=ThriftObject.from_fields(
+                "TimestampType", isAdjustedToUTC=True, unit=ThriftObject.from_fields("TimeUnit", **{{0: "MILLIS", 1: "MICROS", 2: "NANOS"}[lu]: {}})))
+        se = parquet_thrift.SchemaElement(name=b"x", **{k: v for k, v in kw.items() if v is not None})
+        if ptype == 1:
+            arr = np.array(vals, dtype="uint32").view("int32")
+        elif ptype == 2:
+            arr = np.array(vals, dtype="uint64").view("int64")
+        elif ptype == 3:
+            arr = np.array([v.to_bytes(12, "little") for v in vals], dtype="S12")
+            if any(len(x) != 12 for x in arr.tolist()):      # 'S' strips trailing NULs from the Python view only; the buffer is intact
+                pass
+        elif ptype == 7:
+            arr = np.frombuffer(b"".join(vals), dtype="S%d" % tlen)
+        elif conv == 0:
+            arr = np.array([v.decode("utf-8") for v in vals], dtype=object)   # what unpack_byte_array(utf=True) hands over
+        else:
+            arr = np.empty(len(vals), dtype=object)
+            arr[:] = vals
+        try:
+            got = convert(arr.copy() if arr.dtype != object else arr, se)
+            real = []
+            k = got.dtype.kind
+            for i in range(len(vals)):
+                if k in "iu" and conv is None and lu is None:
+                    real.append(("raw", int(got[i]) & ((1 << (got.dtype.itemsize * 8)) - 1)) if got.dtype == arr.dtype else ("?", str(got.dtype)))
+                elif k in "iu":
+                    bits = got.dtype.itemsize * 8
+                    real.append(("int", 1 if k == "i" else 0, bits, int(got[i]) & ((1 << bits) - 1)))
+                elif k in "Mm":
+                    unit = np.datetime_data(got.dtype)[0]
+                    real.append(("dt" if k == "M" else "td", {"ms": 0, "us": 1, "ns": 2}.get(unit, unit), int(got.view("int64")[i]) & M64))
+                elif k == "f" and conv == 5:
+                    real.append(("dec", float(got[i])))
+                elif conv == 0:
+                    real.append(("str", got[i].encode("utf-8")))
+                elif k == "O" or k == "S":
+                    real.append(("raw", vals[i]))
+                    if k == "S":
+                        assert got.view("uint8").reshape(len(vals), -1)[i].tobytes() == (vals[i].to_bytes(12, "little") if ptype == 3 else vals[i])
+                    elif got[i] != vals[i]:
+                        real[-1] = ("raw-changed", got[i])
+                else:
+                    real.append(("?", str(got.dtype), repr(got[i])))
+        except Exception as e:   # noqa
+            real = [("raised", "%s: %s" % (type(e).__name__, str(e)[:80]))] * len(vals)
+        r = pq.call("fmt_convert", ptype, tlen, [] if conv is None else [conv], [] if lu is None else [lu], scale, list(vals))
+        assert r[0] == b"ok", r
+        model, bad_inst = [], None
+        for v, (cv, colv, den, spec) in zip(vals, r[1]):
+            tag = cv[0].decode()
+            if tag == "int":
+                model.append(("int", cv[1], cv[2], cv[3]))
+            elif tag in ("dt", "td"):
+                model.append((tag, cv[1], cv[2]))
+            elif tag == "dec":
+                model.append(("dec", float(cv[1]) * 10 ** -cv[2] if abs(cv[1]) < (1 << 1000) else None))
+            elif tag == "str":
+                model.append(("str", bytes(cv[1])))
+            elif tag == "raw":
+                model.append(("raw", v))
+            else:
+                model.append((tag, cv[1].decode() if len(cv) > 1 else ""))
+            # instance of the table theorem: representable value -> the model's reading = the specified meaning
+            if spec != [] and den != spec and ptype != 3:      # INT96 has no specified meaning (deprecated, by convention a timestamp)
+                z32 = v - (1 << 32) if isinstance(v, int) and ptype == 1 and v >> 31 else v
+                hole = (conv == 6 and isinstance(z32, int) and abs(z32) > 106751) or (isinstance(v, int) and v == 1 << 63 and (lu is not None or conv in (8, 9, 10)))
+                if not hole and bad_inst is None:
+                    bad_inst = "%s value %r: model reads %r, specification %r" % (label, v, den, spec)
+            ninst += 1 if spec != [] else 0
+        nvals += len(vals)
+        diff = next((i for i, (a, b) in enumerate(zip(model, real)) if a != b), None)
+        ctx.correspondence("Impl/RConvert.convert_model = converted_types.convert (dtype and bit pattern of every element; DECIMAL: the float)",
+                           {"row": label}, "equal", "equal" if diff is None else "value %r: model %r, convert() %r" % (vals[diff], model[diff], real[diff]))
+        ctx.correspondence("denote (column_of (convert_model v)) = pandas_of (logical_of v) on representable values (instances of C03_convert_table)",
+                           {"row": label}, "equal", "equal" if bad_inst is None else bad_inst)
+    ctx.extra["convert_rows"] = len(rows)
+    ctx.extra["convert_values_compared_with_real_convert"] = nvals
+    ctx.extra["convert_table_theorem_instances"] = ninst
+
+
 def run(ctx):
     global _SCRATCH
     _SCRATCH = ctx.scratch
@@ -697,6 +826,7 @@ def run(ctx):
     C.shadow()
     C.pqref()
     extraction_vs_kernel(ctx)
+    convert_vs_model(ctx)
     ctx.rule = ("layout descriptions from harness/fmtgen.py encoded by the extracted spec encoder: a deterministic block (DECIMAL over FLBA widths "
                 "1,2,3,5,7,8,9,16 / BYTE_ARRAY / INT32 / INT64 and every converted/logical type, each with negative, zero, positive, min, max "
                 "values x PLAIN/dictionary x required/optional x v1/v2); then 24 physical x converted/logical types; "
